@@ -195,8 +195,9 @@ def extra_polylines(model, rng, polys, count):
                'end_inside', 'start_inside', 'multi_inside', 'north_from_inside']
     if model.derived_geometry:
         # synthesised corners are only known to 1e-9: whether a path drawn exactly along a model edge shares a length
-        # with the cell on either side is not decidable from the model, so such paths are not generated
-        classes = [c for c in classes if c not in ('shared_edge', 'shared_edge_legs', 'border_edge')]
+        # with the cell on either side (or, for a path vertex put on a model corner, on which side of that vertex a piece
+        # ends) is not decidable from the model, so such paths are not generated
+        classes = [c for c in classes if c not in ('shared_edge', 'shared_edge_legs', 'border_edge', 'corner')]
     out, tries = [], 0
     while len(out) < count and tries < count * 25:
         tries += 1
